@@ -28,6 +28,8 @@ def run_property(prop: str, repo: str, tier: str, overrides=None):
     from .cfg import clear_cache
     clear_cache()
     program = Program(repo, overrides)
+    from .callgraph import register_call_signatures
+    program.resolved_call_signatures = register_call_signatures(program)
     ctx = Ctx(prop, program, tier)
     mod.run(ctx)
     try:
